@@ -28,7 +28,10 @@ K_EXT_ANNOT = 'export:base-export-contains-extension-tags-or-pronunciations'
 
 
 def _meta(x):
-    return x.get('meta') or {}
+    m = dict(x.get('meta') or {})
+    if 'confidenceScore' in m:
+        m['confidenceScore'] = str(m['confidenceScore'])
+    return m
 
 
 def _tags(f):
@@ -147,6 +150,18 @@ def twin_of(lex, v):
 def project_T(T, e):
     """what a transcript may keep when the data went through an LMF-e file"""
     T = copy.deepcopy(T)
+
+    def strscore(x):
+        # WN-LMF carries confidenceScore as attribute text: a number given in memory comes back as a string
+        if isinstance(x, dict):
+            if 'confidenceScore' in x:
+                x['confidenceScore'] = str(x['confidenceScore'])
+            for v in x.values():
+                strscore(v)
+        elif isinstance(x, list):
+            for v in x:
+                strscore(v)
+    strscore(T)
     for wk, w in T['words'].items():
         for f in w['forms']:
             if e == '1.0':
@@ -176,7 +191,27 @@ def check(case):
         if case.get('twin') == 'before':
             T0 = twin_of(R['lexicons'][0], case['doc']['v'])
             env.add(env.write_file('twin0.xml', xmlw.serialize({'lmf_version': case['doc']['v'], 'lexicons': [T0]}), d))
-        env.add(env.write_file('src.xml', xmlw.serialize(R, raw_text=b['raw_text']), d))
+        if case.get('warm'):
+            # same process, same database: another lexicon is added, exported and queried first, so every
+            # lookup the exporter uses has already run once before the lexicon under test exists
+            Wm = docs.maximal(case['doc']['v'], lid='wm')
+            Wm['version'] = '9'
+            for ss in Wm['synsets']:
+                if ss.get('lexfile'):
+                    ss['lexfile'] = 'noun.warm'
+            env.add_resource({'lmf_version': case['doc']['v'], 'lexicons': [Wm]})
+            wn.export(wn.lexicons(lexicon='wm:9'), d / 'warm.xml', version=e)
+            for ss in wn.synsets(lexicon='wm:9'):
+                ss.lexfile(), ss.definition(), ss.ili
+            for s_ in wn.senses(lexicon='wm:9'):
+                s_.frames(), s_.word(), s_.synset()
+        if 'numscore' in case:
+            from .c02 import _set_scores
+            R = copy.deepcopy(R)
+            _set_scores(R, case['numscore'])
+            env.add_resource(copy.deepcopy(R))
+        else:
+            env.add(env.write_file('src.xml', xmlw.serialize(R, raw_text=b['raw_text']), d))
         if case.get('ext'):
             X = docs.extension(case['doc']['v'], R['lexicons'][0], flags=('annot',))
             env.add(env.write_file('ext.xml', xmlw.serialize({'lmf_version': case['doc']['v'], 'lexicons': [X]}), d))
@@ -321,6 +356,9 @@ def space(tier, seed):
             for e in ('1.0', v):
                 cases.append({'doc': {'v': v, 'kind': 'feat', 'base': 'M', 'delta': []}, 'e': e, 'ext': True})
         for e in docs.VERSIONS:
+            cases.append({'doc': {'v': v, 'kind': 'feat', 'base': 'M', 'delta': []}, 'e': e, 'warm': True})
+            for score in (0, 0.0, 0.5):
+                cases.append({'doc': {'v': v, 'kind': 'feat', 'base': 'M', 'delta': []}, 'e': e, 'numscore': score})
             for tw in ('before', 'after'):
                 cases.append({'doc': {'v': v, 'kind': 'feat', 'base': 'M', 'delta': []}, 'e': e, 'twin': tw})
     pvers = docs.VERSIONS if tier == 'thorough' else ['1.3']
